@@ -26,6 +26,7 @@ RULE = (
     ' Round 10: every internal type with payload 0/1 arrives before the first rejected message.'
     ' Round 11: environment sweep (see C03); on a leak an owed presentation request is still reported.'
     ' Round 12: hidden-switch sweep; tour events with application sends between two rejected messages; pass under `python -O`.'
+    ' Round 13: tour event asked / presents itself / asked again (under every transport kind).'
 )
 ASSUMPTIONS = [
     "a failed request write surfaces as a transport error from that listen step (any library error is accepted)",
